@@ -508,6 +508,11 @@ func genC03(tier string) []Scenario {
 			return strings.Join(h.hist, " | ")
 		})})
 	}
+	for _, budget := range []int{1, 2} {
+		for _, asNode := range []bool{false, true} {
+			out = append(out, embedFlowScenario(budget, asNode))
+		}
+	}
 	// ---------------- A4: cycles through a flow that contains itself, dead edges on the empty
 	// action, flows with retries configured on the flow: two runs of the same flow object, the
 	// first of which may be ended by a callback error (the second must start at the start node)
@@ -542,6 +547,43 @@ func genC03(tier string) []Scenario {
 		out = append(out, shapeScenarioRuns(fmt.Sprintf("routing-extended runs=2 shape#%d=%s", i, d), d, []int{kLog, kBase, kFuncA}, mk, i%2 == 0, 2))
 	}
 	return out
+}
+
+// embedFlowScenario: a sub-flow wrapped in a user type that embeds *flyt.Flow and overrides Post
+// (to give the sub-flow one fixed exit action) is a node like any other: the parent routes on the
+// action the WRAPPER finished with.  The parent has edges for that action and for every action the
+// inner nodes can end with, to different nodes; budget 1 and 2 on the wrapper.
+func embedFlowScenario(budget int, asNode bool) Scenario {
+	var h *H
+	body := func() {
+		a0, b, c, d := &spec{id: "a", kind: kLog, n: 1}, &spec{id: "b", kind: kLog, n: 1}, &spec{id: "c", kind: kLog, n: 1}, &spec{id: "d", kind: kLog, n: 1}
+		m0, m1 := &spec{id: "m0", kind: kLog, n: 1}, &spec{id: "m1", kind: kLog, n: 1}
+		inner := &spec{id: "wrapped", n: budget, exitAs: "w", flow: &flowSpec{start: m0, edges: map[*spec]map[flyt.Action]*spec{m0: {"a": m1}}}}
+		root := &spec{id: "flow", flow: &flowSpec{start: a0, edges: map[*spec]map[flyt.Action]*spec{
+			a0:    {"a": inner, "b": inner},
+			inner: {"w": b, "a": c, "b": c, flyt.DefaultAction: d},
+		}}}
+		h = newH(root)
+		h.menu = func(hh *H, c call) []answer {
+			if c.ph != pPost {
+				return []answer{{val: nil}}
+			}
+			return []answer{{action: "a"}, {action: "b"}, {action: ""}}
+		}
+		node := h.build(root)
+		if asNode {
+			a, err := flyt.Run(h.ctx, node, h.store)
+			h.finish(a, err)
+		} else {
+			h.finishErrOnly(node.(*flyt.Flow).Run(h.ctx, h.store))
+		}
+	}
+	return Scenario{Name: fmt.Sprintf("routing through a user type that embeds *Flow and overrides Post, budget=%d asNode=%v", budget, asNode), Body: body, Check: stdCheck(func() string {
+		if h == nil {
+			return "?"
+		}
+		return h.traceString()
+	})}
 }
 
 func setEdge(root *spec, from *spec, a flyt.Action, to *spec) {
